@@ -58,7 +58,8 @@ InitState ==
       cds |-> <<>>,            \* waiters of the commit in progress (oldest first): "c<k>" | "auto" | "autoretry"["T"] | "shutdown" | "inner"
       creq |-> [on |-> FALSE, off |-> 0, attempt |-> 0, didx |-> 0],
       ccall |-> FALSE,         \* commit retry timer armed
-      looper |-> FALSE, shutting |-> FALSE, shutD |-> FALSE, shutWait |-> FALSE, buf |-> 0, maxAttempts |-> MaxAttempts ]
+      looper |-> FALSE, shutting |-> FALSE, shutD |-> FALSE, shutWait |-> FALSE, buf |-> 0, maxAttempts |-> MaxAttempts,
+      armed |-> FALSE ]        \* the (synchronous) processor will call stop() from inside its next invocation
 
 Ev(a, x) == [a |-> a, x |-> x, w |-> <<>>, k |-> ""]      \* x: integer argument, k: string argument, w: fetch window
 St(s, out) == [s |-> s, out |-> out]
@@ -164,7 +165,12 @@ Process(st) ==
     THEN LET n == IF BlockN = 0 THEN Len(s.todo) ELSE (IF BlockN < Len(s.todo) THEN BlockN ELSE Len(s.todo))
              blk == SubSeq(s.todo, 1, n)
              x1 == Act(St([s EXCEPT !.cur = blk, !.todo = SubSeq(@, n + 1, Len(@)), !.procPending = TRUE], st.out), <<"proc", blk>>)
-         IN IF SyncProc THEN ProcDone(x1, TRUE) ELSE x1
+         IN IF SyncProc /\ s.armed
+            THEN \* stop() from inside the processor: everything is cancelled and the start Deferred fires with the offset
+                 \* processed so far; the invocation then returns successfully and its last offset is recorded
+                 LET y == StopNow(St([x1.s EXCEPT !.armed = FALSE, !.procPending = FALSE], x1.out))
+                 IN St([y.s EXCEPT !.lp = blk[Len(blk)]], y.out)
+            ELSE IF SyncProc THEN ProcDone(x1, TRUE) ELSE x1
     ELSE \* block finished: a parked reply is handled now
          LET x1 == St([s EXCEPT !.block = FALSE, !.todo = <<>>, !.cur = <<>>], st.out) IN
          IF s.parked # <<>> THEN FetchReply(St([x1.s EXCEPT !.parked = <<>>], x1.out), s.parked[1]) ELSE x1
@@ -222,6 +228,7 @@ Possible(s, e) ==
       [] e.a = "CommitDone"   -> s.creq.on
       [] e.a = "CommitRetry"  -> s.ccall
       [] e.a = "Tick"         -> s.looper
+      [] e.a = "ArmStop"      -> SyncProc /\ ~s.armed /\ s.startD # "none" /\ ~s.shutD
       [] OTHER -> FALSE
 
 Step(s, e) ==
@@ -263,12 +270,13 @@ Step(s, e) ==
              [] OTHER -> Deliver(St(s1, <<>>), FALSE, 0)          \* fenced by the coordinator, or not a Kafka error
       [] e.a = "CommitRetry" -> SendCommit(st0, s.creq.didx + 1, s.creq.attempt + 1)
       [] e.a = "Tick" -> AutoCommit(st0, FALSE)
+      [] e.a = "ArmStop" -> St([s EXCEPT !.armed = TRUE], <<>>)
 
 -----------------------------------------------------------------------------
 VARIABLES s, ev, out, h
 vars == <<s, ev, out, h>>
 
-InitHist == [ delivered |-> <<>>, procOK |-> {}, started |-> 0, startFires |-> 0, afterStop |-> FALSE, resolved |-> -1, procFailed |-> FALSE, acked |-> {}, runOK |-> {}, resetPending |-> FALSE ]
+InitHist == [ delivered |-> <<>>, procOK |-> {}, started |-> 0, startFires |-> 0, afterStop |-> FALSE, resolved |-> -1, procFailed |-> FALSE, acked |-> {}, runOK |-> {}, resetPending |-> FALSE, wasStopped |-> TRUE ]
 Procs(o) == SelectSeq(o, LAMBDA a : a[1] = "proc")
 RECURSIVE Flat(_)
 Flat(q) == IF q = <<>> THEN <<>> ELSE Head(q)[2] \o Flat(Tail(q))
@@ -292,6 +300,7 @@ UpdHist(hh, pre, e, r) ==
       started |-> hh.started + (IF e.a = "Start" THEN 1 ELSE 0),
       startFires |-> IF e.a = "Start" THEN sf ELSE hh.startFires + sf,
       afterStop |-> r.s.startD = "none",
+      wasStopped |-> pre.startD = "none",      \* the event found the consumer stopped
       procFailed |-> IF e.a = "Start" THEN FALSE ELSE hh.procFailed \/ (e.a = "ProcDone" /\ e.x = 0),
       \* offsets the coordinator acknowledged (a commit it accepted) or reported (an offset fetch)
       acked |-> hh.acked \cup (IF e.a = "CommitDone" /\ e.k = "ok" THEN {pre.creq.off} ELSE {})
@@ -312,7 +321,7 @@ Windows(fo) ==
     \cup {<<-1>>}
     \cup {SubSeq(After(fo), 1, k) \o <<BAD>> : k \in 0..(IF Len(After(fo)) < 2 THEN Len(After(fo)) ELSE 2)}
 EvApp == {[a |-> "Start", x |-> p, w |-> <<>>, k |-> ""] : p \in {EARLIEST, LATEST, COMMITTED, LogStart, LogStart + 1}}
-         \cup {[a |-> a, x |-> 0, w |-> <<>>, k |-> ""] : a \in {"Stop", "Shutdown", "RetryFire", "CommitRetry", "Tick", "OffsetsErr", "OFetchErr"}}
+         \cup {[a |-> a, x |-> 0, w |-> <<>>, k |-> ""] : a \in {"Stop", "Shutdown", "RetryFire", "CommitRetry", "Tick", "OffsetsErr", "OFetchErr", "ArmStop"}}
          \cup {[a |-> "OffsetsDone", x |-> o, w |-> <<>>, k |-> ""] : o \in {LogStart, LogEnd}}
          \cup {[a |-> "OFetchDone", x |-> o, w |-> <<>>, k |-> ""] : o \in {-1} \cup Log}
          \cup {[a |-> "ProcDone", x |-> x, w |-> <<>>, k |-> ""] : x \in {0, 1}}
@@ -353,7 +362,7 @@ C03_recorded == s.lc = -1 \/ s.lc \in h.acked
 \* C13: the start Deferred fires at most once per start; nothing happens once stopped
 C13_start_once == h.startFires <= 1
 C13_quiet_after_stop ==
-    (s.startD = "none" /\ ev.a \notin {"Start", "Stop", "Shutdown", "Commit", "Init", "CommitDone", "ProcDone"}) => out = <<>>
+    (h.wasStopped /\ s.startD = "none" /\ ev.a \notin {"Start", "Stop", "Shutdown", "Commit", "Init", "CommitDone", "ProcDone"}) => out = <<>>
 C13_stopped_clean ==
     s.startD = "none" => ~s.retry /\ ~s.ccall /\ ~s.looper /\ s.req = "none" /\ ~s.creq.on /\ ~s.procPending
 =============================================================================
